@@ -891,7 +891,11 @@ class AsyncFIXConnection:
                 await self._process_logout(msg)
 
             if self._connection_state <= ConnectionState.DISCONNECTED_BROKEN_CONN:
-                # Got logout probably
+                # Got logout probably, it still takes its number of the sequence
+                is_valid_msg_num = (
+                    msg.msg_type == FMsg.LOGOUT
+                    and int(msg[FTag.MsgSeqNum]) == self._session.next_num_in
+                )
                 return
 
             msg_seq_num = int(msg[FTag.MsgSeqNum])
